@@ -269,3 +269,491 @@ Proof.
   split; [exact O1|]. intros n e. rewrite M1. rewrite (dataframe_lists_incidences s n e HW Kn).
   split; [intros [H|[]]; exact H|auto].
 Qed.
+
+(* ---------- edge-list file: one add_edge per line ---------- *)
+Lemma fold_sadd_nodup l : forall acc, NoDup (acc ++ l) -> fold_left (fun a x => sadd x a) l acc = acc ++ l.
+Proof.
+  induction l as [|x l IH]; intros acc H; cbn [fold_left]; [rewrite app_nil_r; reflexivity|].
+  assert (Hx : ~ In x acc).
+  { intro Hi. apply NoDup_remove_2 in H. apply H. apply in_app_iff. left; exact Hi. }
+  unfold sadd at 2. apply mem_nIn in Hx. rewrite Hx.
+  rewrite IH; rewrite <- app_assoc; [reflexivity|exact H].
+Qed.
+
+Lemma mkset_idem m : mkset (mkset m) = mkset m.
+Proof. unfold mkset at 1. rewrite fold_sadd_nodup; [reflexivity|]. simpl. apply NoDup_mkset. Qed.
+
+Lemma add_edge_auto_as_step m s : Inv s -> existsb is_none (mkset m) = false ->
+  add_edge m None [] s = auto_step [] s (mkset m).
+Proof.
+  intros (_ & _ & _ & Hu) Hn. unfold add_edge, auto_step, bulk_item.
+  assert (Hhas : has (LInt (h_uid s)) (h_edge (with_uid s (h_uid s + 1))) = false).
+  { apply has_nIn. intro Hi. specialize (Hu (LInt (h_uid s)) (h_uid s) Hi eq_refl). lia. }
+  rewrite Hhas, mkset_idem, Hn. reflexivity.
+Qed.
+
+Lemma loop_ext_inv {A} (P : hg -> Prop) (f g : hg -> A -> res) l :
+  (forall s x, P s -> In x l -> f s x = g s x) -> (forall s x, P s -> P (st_of (g s x))) ->
+  forall s, P s -> loop f l s = loop g l s.
+Proof.
+  intros Hfg Hp. induction l as [|x l IH]; intros s Ps; [reflexivity|]. cbn [loop].
+  rewrite (Hfg s x Ps (or_introl eq_refl)).
+  specialize (Hp s x Ps). destruct (g s x) as [[s1 o] w]. destruct o; [|reflexivity].
+  rewrite IH; [reflexivity| |exact Hp]. intros s' x' Ps' Hx'. apply Hfg; [exact Ps'|right; exact Hx'].
+Qed.
+
+(* read_edgelist(write_edgelist(H)): the same member sets in the same order under ids 0, 1, ... *)
+Theorem edge_lines_roundtrip s : Inv s -> NoNone s ->
+  let r := from_edge_lines (to_hyperedge_list s) in
+  let t := st_of r in
+  out_of r = Ok /\ Inv t /\
+  ekeys t = map (fun j => LInt (Z.of_nat j)) (seq 0 (length (h_edge s))) /\
+  (forall j, (j < length (h_edge s))%nat -> seteq (mems t (LInt (Z.of_nat j))) (snd (nth j (h_edge s) (LNone, [])))).
+Proof.
+  intros I NN. cbv zeta. unfold from_edge_lines.
+  rewrite (loop_ext_inv Inv (fun s m => add_edge m None [] s) (fun s m => auto_step [] s (mkset m))).
+  2:{ intros s' m Is' Hm. apply add_edge_auto_as_step; [exact Is'|].
+      unfold to_hyperedge_list in Hm. apply in_map_iff in Hm. destruct Hm as (kv & <- & Hkv).
+      apply (Inv_members_no_none s kv I NN Hkv). }
+  2:{ intros s' m Is'. apply (Inv_bulk_auto [] s' (mkset m) [] Is'). }
+  2:{ apply Inv_empty. }
+  rewrite <- (loop_map (auto_step []) mkset).
+  destruct (auto_loop_effect [] (map mkset (to_hyperedge_list s)) hg_empty Inv_empty) as (O1 & I1 & K1 & _ & M1 & _ & _).
+  { intros m Hm. apply in_map_iff in Hm. destruct Hm as (m0 & <- & Hm0). rewrite mkset_idem.
+    unfold to_hyperedge_list in Hm0. apply in_map_iff in Hm0. destruct Hm0 as (kv & <- & Hkv).
+    apply (Inv_members_no_none s kv I NN Hkv). }
+  unfold to_hyperedge_list in *. rewrite !map_length in *. cbn [h_uid hg_empty ekeys h_edge keys map app] in K1.
+  split; [exact O1|]. split; [exact I1|]. split; [exact K1|].
+  intros j Hj. specialize (M1 j Hj). cbn [h_uid hg_empty] in M1.
+  replace (0 + Z.of_nat j) with (Z.of_nat j) in M1 by lia.
+  assert (En : nth j (map mkset (map snd (h_edge s))) [] = mkset (snd (nth j (h_edge s) (LNone, [])))).
+  { rewrite map_map.
+    rewrite (nth_indep _ [] ((fun x => mkset (snd x)) (LNone, @nil lbl))) by (rewrite map_length; exact Hj).
+    apply (map_nth (fun x => mkset (snd x))). }
+  rewrite En in M1.
+  intro x. rewrite (M1 x). apply In_mkset.
+Qed.
+
+(* ---------- HIF ---------- *)
+Lemma geta_set k k' v (d : odict attrs) : geta k (set k' v d) = if lbl_eqb k k' then v else geta k d.
+Proof.
+  unfold geta. destruct (lbl_eqb_spec k k') as [->|N]; [rewrite get_set_same; reflexivity|].
+  rewrite get_set_other by exact N. reflexivity.
+Qed.
+
+Lemma loop_pure {A} (P : hg -> Prop) (f : hg -> A -> res) (g : hg -> A -> hg) l :
+  (forall s x, P s -> In x l -> f s x = (g s x, Ok, O) /\ P (g s x)) ->
+  forall s, P s -> loop f l s = (fold_left g l s, Ok, O) /\ P (fold_left g l s).
+Proof.
+  induction l as [|x l IH]; intros H s Ps; cbn [loop fold_left]; [split; [reflexivity|exact Ps]|].
+  destruct (H s x Ps (or_introl eq_refl)) as [E P1]. rewrite E.
+  destruct (IH (fun s' x' Ps' Hx' => H s' x' Ps' (or_intror Hx')) (g s x) P1) as [E2 P2].
+  rewrite E2. split; [reflexivity|exact P2].
+Qed.
+
+Definition Clean (net : attrs) (s : hg) : Prop :=
+  (forall n, geta n (h_nattr s) = []) /\ (forall e, geta e (h_eattr s) = []) /\ h_net s = net.
+
+Lemma add_node_to_edge_effect e n s net : e <> LNone -> n <> LNone -> Inv s -> Clean net s ->
+  let t := st_of (add_node_to_edge e n s) in
+  Inv t /\ Clean net t /\
+  (forall x, In x (nkeys t) <-> x = n \/ In x (nkeys s)) /\
+  (forall y, In y (ekeys t) <-> y = e \/ In y (ekeys s)).
+Proof.
+  intros He Hn I (C1 & C2 & C3). cbv zeta.
+  pose proof (Inv_add_node_to_edge e n s I) as It. revert It.
+  unfold add_node_to_edge. rewrite (is_none_false e He), (is_none_false n Hn), !andb_false_r.
+  rewrite st_of_ok. intro It. split; [exact It|].
+  set (s1 := if has e (h_edge s) then s else _).
+  assert (S1 : h_node s1 = h_node s /\ h_nattr s1 = h_nattr s /\ h_net s1 = h_net s /\
+               (forall y, In y (keys (h_edge s1)) <-> y = e \/ In y (ekeys s)) /\
+               (forall y, geta y (h_eattr s1) = [])).
+  { unfold s1. destruct (has e (h_edge s)) eqn:E.
+    - split; [reflexivity|]. split; [reflexivity|]. split; [reflexivity|]. split; [|exact C2].
+      intro y. apply has_In in E. split; [auto|]. intros [->|H]; [exact E|exact H].
+    - destruct (bump_uid_tables e (with_eattr (with_edge s (set e [] (h_edge s))) (set e [] (h_eattr s)))) as (T1 & T2 & T3 & T4 & T5).
+      rewrite T1, T2, T3, T4, T5. cbn [h_node h_nattr h_edge h_eattr h_net with_eattr with_edge].
+      split; [reflexivity|]. split; [reflexivity|]. split; [reflexivity|]. split.
+      + intro y. apply In_keys_set.
+      + intro y. rewrite geta_set. destruct (lbl_eqb y e); [reflexivity|apply C2]. }
+  destruct S1 as (N1 & N2 & N3 & E1 & E2).
+  split; [|split].
+  - split; [|split].
+    + intro x. cbn [node_add edge_add h_nattr with_node with_edge]. unfold ensure_node.
+      destruct (has n (h_node s1)); cbn [h_nattr with_nattr with_node]; [rewrite N2; apply C1|].
+      rewrite geta_set, N2. destruct (lbl_eqb x n); [reflexivity|apply C1].
+    + intro y. cbn [node_add edge_add h_eattr with_node with_edge]. rewrite ensure_node_eattr. apply E2.
+    + cbn [node_add edge_add h_net with_node with_edge]. unfold ensure_node.
+      destruct (has n (h_node s1)); cbn [h_net with_nattr with_node]; rewrite N3; exact C3.
+  - intro x. unfold nkeys. cbn [node_add h_node with_node]. rewrite In_keys_set.
+    change (keys (h_node (edge_add e n (ensure_node n s1)))) with (nkeys (ensure_node n s1)).
+    rewrite ensure_node_nkeys. unfold nkeys. rewrite N1.
+    destruct (has n (h_node s)) eqn:E.
+    + apply has_In in E. split; [intros [->|H]; [left; reflexivity|right; exact H]|].
+      intros [->|H]; [right; exact E|right; exact H].
+    + rewrite in_app_iff. simpl. split.
+      * intros [->|[H|[<-|[]]]]; [left; reflexivity|right; exact H|left; reflexivity].
+      * intros [->|H]; [left; reflexivity|right; left; exact H].
+  - intro y. unfold ekeys. cbn [node_add edge_add h_edge with_node with_edge]. rewrite In_keys_set, ensure_node_edge.
+    rewrite E1. tauto.
+Qed.
+
+Definition NoNonePairs (l : list (lbl * lbl)) : Prop := forall p, In p l -> fst p <> LNone /\ snd p <> LNone.
+
+Lemma add_pairs_full net : forall l s,
+  NoNonePairs l -> Inv s -> Clean net s ->
+  let r := add_pairs l s in
+  let t := st_of r in
+  out_of r = Ok /\ Inv t /\ Clean net t /\
+  (forall y x, In x (mems t y) <-> In (x, y) l \/ In x (mems s y)) /\
+  (forall x, In x (nkeys t) <-> (exists e, In (x, e) l) \/ In x (nkeys s)) /\
+  (forall y, In y (ekeys t) <-> (exists n, In (n, y) l) \/ In y (ekeys s)).
+Proof.
+  induction l as [|[n e] l IH]; intros s Hp I Cl; cbv zeta.
+  - unfold add_pairs. cbn [loop]. rewrite st_of_ok. split; [reflexivity|]. split; [exact I|]. split; [exact Cl|].
+    split; [intros y x; split; [auto|intros [[]|H]; exact H]|].
+    split; intro x; (split; [auto|intros [(z & [])|H]; exact H]).
+  - destruct (Hp (n, e) (or_introl eq_refl)) as [Hn He]. cbn [fst snd] in Hn, He.
+    destruct (add_node_to_edge_mems e n s He Hn) as [Er M1].
+    destruct (add_node_to_edge_effect e n s net He Hn I Cl) as (I1 & C1 & N1 & E1).
+    set (s1 := st_of (add_node_to_edge e n s)) in *.
+    unfold add_pairs.
+    destruct (loop_cons_ok (fun s ne => add_node_to_edge (snd ne) (fst ne) s) (n, e) l s s1 O Er) as [Est Eout].
+    rewrite Est, Eout.
+    destruct (IH s1 (fun p Hp' => Hp p (or_intror Hp')) I1 C1) as (O2 & I2 & C2 & M2 & N2 & E2). unfold add_pairs in *.
+    split; [exact O2|]. split; [exact I2|]. split; [exact C2|]. split; [|split].
+    + intros y x. rewrite M2, M1. split.
+      * intros [H|[[-> ->]|H]]; [left; right; exact H|left; left; reflexivity|right; exact H].
+      * intros [[E|H]|H]; [inversion E; subst; right; left; split; reflexivity|left; exact H|right; right; exact H].
+    + intro x. rewrite N2, N1. split.
+      * intros [(e' & H)|[->|H]]; [left; exists e'; right; exact H|left; exists e; left; reflexivity|right; exact H].
+      * intros [(e' & [E|H])|H]; [inversion E; subst; right; left; reflexivity|left; exists e'; exact H|right; right; exact H].
+    + intro y. rewrite E2, E1. split.
+      * intros [(n' & H)|[->|H]]; [left; exists n'; right; exact H|left; exists n; left; reflexivity|right; exact H].
+      * intros [(n' & [E|H])|H]; [inversion E; subst; right; left; reflexivity|left; exists n'; exact H|right; right; exact H].
+Qed.
+
+(* the node records *)
+Definition nstep (s : hg) (na : lbl * attrs) : res :=
+  if has (fst na) (h_node s) then set_node_attrs_dict [na] s else add_node (fst na) (snd na) s.
+Definition nstep_pure (s : hg) (na : lbl * attrs) : hg := nattr_update (fst na) (snd na) (ensure_node (fst na) s).
+
+Lemma nstep_is_pure s na : Inv s -> fst na <> LNone -> nstep s na = (nstep_pure s na, Ok, O).
+Proof.
+  intros I Hn. destruct na as [n a]. unfold nstep, nstep_pure. cbn [fst snd] in *.
+  destruct (has n (h_node s)) eqn:E.
+  - unfold set_node_attrs_dict. cbn [loop]. rewrite (has_nattr_node n s I), E. unfold ensure_node. rewrite E. reflexivity.
+  - unfold add_node. rewrite E, (is_none_false n Hn). reflexivity.
+Qed.
+
+Lemma nstep_pure_effect s n a : Inv s ->
+  let t := nstep_pure s (n, a) in
+  Inv t /\ h_edge t = h_edge s /\ h_eattr t = h_eattr s /\ h_net t = h_net s /\
+  (forall x, mships t x = mships s x) /\
+  (forall x, In x (nkeys t) <-> x = n \/ In x (nkeys s)) /\
+  (forall x, geta x (h_nattr t) = if lbl_eqb x n then aupdate (if has n (h_node s) then geta n (h_nattr s) else []) a
+                                  else geta x (h_nattr s)).
+Proof.
+  intro I. cbv zeta. unfold nstep_pure. cbn [fst snd].
+  assert (I1 : Inv (ensure_node n s)) by (apply Inv_ensure_node; exact I).
+  split; [apply Inv_nattr_update; [apply ensure_node_has|exact I1]|].
+  cbn [nattr_update h_edge h_eattr h_net with_nattr]. rewrite ensure_node_edge, ensure_node_eattr, ensure_node_net.
+  split; [reflexivity|]. split; [reflexivity|]. split; [reflexivity|]. split; [|split].
+  - intro x. apply ensure_node_mships.
+  - intro x. change (nkeys (nattr_update n a (ensure_node n s))) with (nkeys (ensure_node n s)).
+    rewrite ensure_node_nkeys. destruct (has n (h_node s)) eqn:E.
+    + apply has_In in E. split; [auto|]. intros [->|H]; [exact E|exact H].
+    + rewrite in_app_iff. simpl. split; [intros [H|[<-|[]]]; auto|intros [->|H]; auto].
+  - intro x. unfold nattr_update. cbn [h_nattr with_nattr]. rewrite geta_set. destruct (lbl_eqb_spec x n) as [->|N].
+    + f_equal. unfold ensure_node. destruct (has n (h_node s)); [reflexivity|].
+      cbn [h_nattr with_nattr with_node]. rewrite geta_set, lbl_eqb_refl. reflexivity.
+    + unfold ensure_node. destruct (has n (h_node s)); [reflexivity|].
+      cbn [h_nattr with_nattr with_node]. rewrite geta_set. destruct (lbl_eqb_spec x n); [contradiction|reflexivity].
+Qed.
+
+Lemma node_records : forall recs s,
+  Inv s -> NoDup (map fst recs) -> (forall r, In r recs -> fst r <> LNone) ->
+  (forall x, In x (map fst recs) -> geta x (h_nattr s) = []) ->
+  let t := st_of (loop nstep recs s) in
+  out_of (loop nstep recs s) = Ok /\ Inv t /\ h_edge t = h_edge s /\ h_eattr t = h_eattr s /\
+  h_net t = h_net s /\ (forall x, mships t x = mships s x) /\
+  (forall x, In x (nkeys t) <-> In x (map fst recs) \/ In x (nkeys s)) /\
+  (forall n a, In (n, a) recs -> geta n (h_nattr t) = aupdate [] a) /\
+  (forall x, ~ In x (map fst recs) -> geta x (h_nattr t) = geta x (h_nattr s)).
+Proof.
+  induction recs as [|[n a] recs IH]; intros s I ND Hn Hc; cbv zeta.
+  - cbn [loop]. rewrite st_of_ok. unfold out_of, ok. cbn [fst snd map].
+    split; [reflexivity|]. split; [exact I|]. do 3 (split; [reflexivity|]). split; [reflexivity|].
+    split; [intro x; split; [auto|intros [[]|H]; exact H]|]. split; [intros n0 a0 []|reflexivity].
+  - assert (Hnn : n <> LNone) by (apply (Hn (n, a)); left; reflexivity).
+    pose proof (nstep_is_pure s (n, a) I Hnn) as Er.
+    destruct (nstep_pure_effect s n a I) as (I1 & E1 & EA1 & NT1 & MS1 & NK1 & NA1).
+    set (s1 := nstep_pure s (n, a)) in *.
+    destruct (loop_cons_ok nstep (n, a) recs s s1 O Er) as [Est Eout]. rewrite Est, Eout.
+    cbn [map] in ND. inversion ND as [|? ? Hnin ND']; subst.
+    destruct (IH s1 I1 ND' (fun r Hr => Hn r (or_intror Hr))) as (O2 & I2 & E2 & EA2 & NT2 & MS2 & NK2 & NA2 & NO2).
+    { intros x Hx. rewrite NA1. destruct (lbl_eqb_spec x n) as [->|N]; [contradiction|]. apply Hc. right; exact Hx. }
+    split; [exact O2|]. split; [exact I2|]. split; [congruence|]. split; [congruence|]. split; [congruence|].
+    split; [intro x; rewrite MS2; apply MS1|]. split; [|split].
+    + intro x. rewrite NK2, NK1. cbn [map fst]. split.
+      * intros [H|[->|H]]; [left; right; exact H|left; left; reflexivity|right; exact H].
+      * intros [[<-|H]|H]; [right; left; reflexivity|left; exact H|right; right; exact H].
+    + intros n0 a0 [E|H]; [inversion E; subst|apply NA2; exact H].
+      rewrite (NO2 n0 Hnin), NA1, lbl_eqb_refl. rewrite (Hc n0 (or_introl eq_refl)).
+      destruct (has n0 (h_node s)); reflexivity.
+    + intros x Hx. cbn [map fst] in Hx. rewrite NO2 by (intro Hi; apply Hx; right; exact Hi). rewrite NA1.
+      destruct (lbl_eqb_spec x n) as [->|N]; [exfalso; apply Hx; left; reflexivity|reflexivity].
+Qed.
+
+(* the edge records *)
+Definition estep (s : hg) (ea : lbl * attrs) : res :=
+  if has (fst ea) (h_edge s) then set_edge_attrs_dict [ea] s else add_edge [] (Some (fst ea)) (snd ea) s.
+Definition estep_pure (s : hg) (ea : lbl * attrs) : hg :=
+  if has (fst ea) (h_edge s) then eattr_update (fst ea) (snd ea) s
+  else bump_uid (fst ea) (insert_edge (fst ea) [] (snd ea) s).
+
+Lemma estep_is_pure s ea : Inv s -> estep s ea = (estep_pure s ea, Ok, O).
+Proof.
+  intros I. destruct ea as [e a]. unfold estep, estep_pure. cbn [fst snd] in *.
+  destruct (has e (h_edge s)) eqn:E.
+  - unfold set_edge_attrs_dict. cbn [loop]. rewrite (has_eattr_edge e s I), E. reflexivity.
+  - unfold add_edge. cbn [mkset fold_left existsb]. rewrite E. reflexivity.
+Qed.
+
+Lemma estep_pure_effect s e a : Inv s ->
+  let t := estep_pure s (e, a) in
+  Inv t /\ h_node t = h_node s /\ h_nattr t = h_nattr s /\ h_net t = h_net s /\
+  (forall y, mems t y = mems s y) /\
+  (forall y, In y (ekeys t) <-> y = e \/ In y (ekeys s)) /\
+  (forall y, geta y (h_eattr t) = if lbl_eqb y e then aupdate (if has e (h_edge s) then geta e (h_eattr s) else []) a
+                                  else geta y (h_eattr s)).
+Proof.
+  intro I. cbv zeta. unfold estep_pure. cbn [fst snd]. destruct (has e (h_edge s)) eqn:E.
+  - split; [apply Inv_eattr_update; assumption|]. unfold eattr_update.
+    cbn [h_node h_nattr h_net h_edge h_eattr with_eattr]. do 3 (split; [reflexivity|]).
+    split; [reflexivity|]. split.
+    + intro y. apply has_In in E. split; [auto|]. intros [->|H]; [exact E|exact H].
+    + intro y. rewrite geta_set. reflexivity.
+  - assert (Hne : ~ In e (ekeys s)) by (apply has_nIn; exact E).
+    split; [apply Inv_insert_explicit; assumption|].
+    destruct (bump_uid_tables e (insert_edge e [] a s)) as (T1 & T2 & T3 & T4 & T5).
+    unfold mems, ekeys. rewrite T1, T2, T3, T4, T5. unfold insert_edge.
+    cbn [fold_left h_node h_nattr h_net h_edge h_eattr with_eattr with_edge].
+    do 3 (split; [reflexivity|]). split; [|split].
+    + intro y. rewrite getl_set. destruct (lbl_eqb_spec y e) as [->|N]; [|reflexivity].
+      symmetry. apply has_false_getl. exact E.
+    + intro y. apply In_keys_set.
+    + intro y. rewrite geta_set. reflexivity.
+Qed.
+
+Lemma edge_records : forall recs s,
+  Inv s -> NoDup (map fst recs) ->
+  (forall x, In x (map fst recs) -> geta x (h_eattr s) = []) ->
+  let t := st_of (loop estep recs s) in
+  out_of (loop estep recs s) = Ok /\ Inv t /\ h_node t = h_node s /\ h_nattr t = h_nattr s /\
+  h_net t = h_net s /\ (forall y, mems t y = mems s y) /\
+  (forall y, In y (ekeys t) <-> In y (map fst recs) \/ In y (ekeys s)) /\
+  (forall e a, In (e, a) recs -> geta e (h_eattr t) = aupdate [] a) /\
+  (forall y, ~ In y (map fst recs) -> geta y (h_eattr t) = geta y (h_eattr s)).
+Proof.
+  induction recs as [|[e a] recs IH]; intros s I ND Hc; cbv zeta.
+  - cbn [loop]. rewrite st_of_ok. unfold out_of, ok. cbn [fst snd map].
+    split; [reflexivity|]. split; [exact I|]. do 3 (split; [reflexivity|]). split; [reflexivity|].
+    split; [intro x; split; [auto|intros [[]|H]; exact H]|]. split; [intros n0 a0 []|reflexivity].
+  - pose proof (estep_is_pure s (e, a) I) as Er.
+    destruct (estep_pure_effect s e a I) as (I1 & N1 & NA1 & NT1 & MS1 & EK1 & EA1).
+    set (s1 := estep_pure s (e, a)) in *.
+    destruct (loop_cons_ok estep (e, a) recs s s1 O Er) as [Est Eout]. rewrite Est, Eout.
+    cbn [map] in ND. inversion ND as [|? ? Hnin ND']; subst.
+    destruct (IH s1 I1 ND') as (O2 & I2 & N2 & NA2 & NT2 & MS2 & EK2 & EA2 & EO2).
+    { intros x Hx. rewrite EA1. destruct (lbl_eqb_spec x e) as [->|N]; [contradiction|]. apply Hc. right; exact Hx. }
+    split; [exact O2|]. split; [exact I2|]. split; [congruence|]. split; [congruence|]. split; [congruence|].
+    split; [intro x; rewrite MS2; apply MS1|]. split; [|split].
+    + intro x. rewrite EK2, EK1. cbn [map fst]. split.
+      * intros [H|[->|H]]; [left; right; exact H|left; left; reflexivity|right; exact H].
+      * intros [[<-|H]|H]; [right; left; reflexivity|left; exact H|right; right; exact H].
+    + intros e0 a0 [Eq|H]; [inversion Eq; subst|apply EA2; exact H].
+      rewrite (EO2 e0 Hnin), EA1, lbl_eqb_refl. rewrite (Hc e0 (or_introl eq_refl)).
+      destruct (has e0 (h_edge s)); reflexivity.
+    + intros x Hx. cbn [map fst] in Hx. rewrite EO2 by (intro Hi; apply Hx; right; exact Hi). rewrite EA1.
+      destruct (lbl_eqb_spec x e) as [->|N]; [exfalso; apply Hx; left; reflexivity|reflexivity].
+Qed.
+
+(* what from_hif_dict builds from ANY HIF record *)
+Theorem from_hif_spec h :
+  NoNonePairs (hf_inc h) -> NoDup (map fst (hf_nodes h)) -> (forall r, In r (hf_nodes h) -> fst r <> LNone) ->
+  NoDup (map fst (hf_edges h)) ->
+  let r := from_hif h in
+  let t := st_of r in
+  out_of r = Ok /\ Inv t /\
+  (forall y x, In x (mems t y) <-> In (x, y) (hf_inc h)) /\
+  (forall x, In x (nkeys t) <-> (exists e, In (x, e) (hf_inc h)) \/ In x (map fst (hf_nodes h))) /\
+  (forall y, In y (ekeys t) <-> (exists n, In (n, y) (hf_inc h)) \/ In y (map fst (hf_edges h))) /\
+  (forall n a, In (n, a) (hf_nodes h) -> geta n (h_nattr t) = aupdate [] a) /\
+  (forall x, ~ In x (map fst (hf_nodes h)) -> geta x (h_nattr t) = []) /\
+  (forall e a, In (e, a) (hf_edges h) -> geta e (h_eattr t) = aupdate [] a) /\
+  (forall y, ~ In y (map fst (hf_edges h)) -> geta y (h_eattr t) = []) /\
+  h_net t = hf_net h.
+Proof.
+  intros Hp NDn Hnn NDe. cbv zeta. unfold from_hif.
+  set (s0 := with_net hg_empty (hf_net h)).
+  assert (I0 : Inv s0) by (apply Inv_with_net; apply Inv_empty).
+  assert (C0 : Clean (hf_net h) s0) by (split; [|split]; reflexivity).
+  destruct (add_pairs_full (hf_net h) (hf_inc h) s0 Hp I0 C0) as (O1 & I1 & (C1n & C1e & C1t) & M1 & N1 & E1).
+  set (r1 := add_pairs (hf_inc h) s0) in *. set (s1 := st_of r1) in *.
+  match goal with |- context [bind r1 ?k] => destruct (bind_ok_st r1 k O1) as [Est Eout] end. rewrite Est, Eout. clear Est Eout.
+  cbv beta. fold s1.
+  change (fun (s : hg) (na : lbl * attrs) => if has (fst na) (h_node s) then set_node_attrs_dict [na] s else add_node (fst na) (snd na) s) with nstep.
+  change (fun (s : hg) (ea : lbl * attrs) => if has (fst ea) (h_edge s) then set_edge_attrs_dict [ea] s else add_edge [] (Some (fst ea)) (snd ea) s) with estep.
+  destruct (node_records (hf_nodes h) s1 I1 NDn Hnn (fun x _ => C1n x)) as (O2 & I2 & E2 & EA2 & NT2 & MS2 & NK2 & NA2 & NO2).
+  set (r2 := loop nstep (hf_nodes h) s1) in *. set (s2 := st_of r2) in *.
+  match goal with |- context [bind r2 ?k] => destruct (bind_ok_st r2 k O2) as [Est Eout] end. rewrite Est, Eout. clear Est Eout.
+  cbv beta. fold s2.
+  destruct (edge_records (hf_edges h) s2 I2 NDe) as (O3 & I3 & N3 & NA3 & NT3 & MS3 & EK3 & EA3 & EO3).
+  { intros x _. rewrite EA2. apply C1e. }
+  split; [exact O3|]. split; [exact I3|].
+  split.
+  { intros y x. rewrite MS3. unfold mems. rewrite E2. fold (mems s1 y). rewrite M1.
+    split; [intros [H|[]]; exact H|auto]. }
+  split.
+  { intro x. unfold nkeys. rewrite N3. fold (nkeys s2). rewrite NK2, N1.
+    change (nkeys s0) with (@nil lbl). simpl. tauto. }
+  split.
+  { intro y. rewrite EK3. assert (Ek : ekeys s2 = ekeys s1) by (unfold ekeys; rewrite E2; reflexivity). rewrite Ek, E1.
+    change (ekeys s0) with (@nil lbl). simpl. tauto. }
+  split; [intros n a Hr; rewrite NA3; apply NA2; exact Hr|].
+  split; [intros x Hx; rewrite NA3, (NO2 x Hx); apply C1n|].
+  split; [exact EA3|].
+  split; [intros y Hy; rewrite (EO3 y Hy), EA2; apply C1e|].
+  rewrite NT3, NT2. exact C1t.
+Qed.
+
+(* the records written by to_hif_dict *)
+Definition rec_of (at_ : odict attrs) (kv : lbl * list lbl) : list (lbl * attrs) :=
+  let a := geta (fst kv) at_ in
+  match snd kv, is_nil_attrs a with
+  | _ :: _, true => []
+  | _, _ => [(fst kv, a)]
+  end.
+
+Lemma rec_of_spec at_ kv r : In r (rec_of at_ kv) <-> r = (fst kv, geta (fst kv) at_) /\ (snd kv = [] \/ geta (fst kv) at_ <> []).
+Proof.
+  unfold rec_of. destruct kv as [k v]. cbn [fst snd]. destruct v as [|x v]; destruct (geta k at_) as [|p a] eqn:E; cbn [is_nil_attrs].
+  - simpl. split; [intros [<-|[]]; split; [reflexivity|left; reflexivity]|intros [-> _]; left; reflexivity].
+  - simpl. split; [intros [<-|[]]; split; [reflexivity|left; reflexivity]|intros [-> _]; left; reflexivity].
+  - simpl. split; [intros []|]. intros [_ [H|H]]; [discriminate|congruence].
+  - simpl. split; [intros [<-|[]]; split; [reflexivity|right; discriminate]|intros [-> _]; left; reflexivity].
+Qed.
+
+Lemma NoDup_app_in' {A} (a b : list A) :
+  NoDup a -> NoDup b -> (forall x, In x a -> In x b -> False) -> NoDup (a ++ b).
+Proof.
+  induction 1 as [|x a Hx Ha IH]; intros Hb Hd; simpl; [exact Hb|].
+  constructor.
+  - rewrite in_app_iff. intros [H|H]; [contradiction|]. apply (Hd x); [left; reflexivity|exact H].
+  - apply IH; [exact Hb|]. intros y Hy. apply Hd. right; exact Hy.
+Qed.
+
+Lemma recs_keys_NoDup at_ (d : odict (list lbl)) : NoDup (keys d) -> NoDup (map fst (flat_map (rec_of at_) d)).
+Proof.
+  induction d as [|kv d IH]; intro ND; [constructor|]. cbn [keys map] in ND. inversion ND as [|? ? Hn ND']; subst.
+  cbn [flat_map]. rewrite map_app. apply NoDup_app_in'.
+  - unfold rec_of. destruct (snd kv), (is_nil_attrs (geta (fst kv) at_)); simpl; repeat constructor; auto.
+  - apply IH. exact ND'.
+  - intros x Hx Hx'. apply in_map_iff in Hx. destruct Hx as (r & <- & Hr). apply rec_of_spec in Hr. destruct Hr as [-> _].
+    cbn [fst] in Hx'. apply in_map_iff in Hx'. destruct Hx' as (r' & Er & Hr'). apply in_flat_map in Hr'.
+    destruct Hr' as (kv' & Hkv' & Hr'). apply rec_of_spec in Hr'. destruct Hr' as [-> _]. cbn [fst] in Er.
+    apply Hn. rewrite <- Er. unfold keys. apply in_map. exact Hkv'.
+Qed.
+
+Lemma to_hif_nodes s : hf_nodes (to_hif s) = flat_map (rec_of (h_nattr s)) (h_node s).
+Proof. reflexivity. Qed.
+Lemma to_hif_edges s : hf_edges (to_hif s) = flat_map (rec_of (h_eattr s)) (h_edge s).
+Proof. reflexivity. Qed.
+
+Lemma NoNonePairs_bip s : Inv s -> NoNone s -> NoNonePairs (to_bipartite_edgelist s).
+Proof.
+  intros I [NNn NNe] [n e] Hp. pose proof I as (_ & (_ & _ & _ & Ke) & _).
+  apply (In_bipartite_edgelist s n e Ke) in Hp. cbn [fst snd]. split.
+  - intro N. subst n. apply NNn. apply (members_are_nodes s e LNone I Hp).
+  - intro N. subst e. apply NNe. unfold mems, getl in Hp. destruct (get LNone (h_edge s)) eqn:G; [|destruct Hp].
+    apply get_Some_In in G. exact G.
+Qed.
+
+(* from_hif_dict(to_hif_dict(H)) = read_hif(write_hif(H)) at the dict level: the same nodes
+   (isolated ones included), edges (empty ones included), incidences, attribute dicts (an empty
+   dict updated with the source's dict) and network attributes *)
+Theorem hif_roundtrip s : Inv s -> NoNone s ->
+  let r := from_hif (to_hif s) in
+  let t := st_of r in
+  out_of r = Ok /\ Inv t /\
+  (forall n e, In n (mems t e) <-> In n (mems s e)) /\
+  (forall x, In x (nkeys t) <-> In x (nkeys s)) /\
+  (forall y, In y (ekeys t) <-> In y (ekeys s)) /\
+  (forall n, In n (nkeys s) -> geta n (h_nattr t) = aupdate [] (geta n (h_nattr s))) /\
+  (forall e, In e (ekeys s) -> geta e (h_eattr t) = aupdate [] (geta e (h_eattr s))) /\
+  h_net t = h_net s.
+Proof.
+  intros I NN. cbv zeta.
+  pose proof I as (HW & (_ & _ & Kn & Ke) & _).
+  destruct (from_hif_spec (to_hif s)) as (O1 & I1 & M1 & N1 & E1 & NA1 & NO1 & EA1 & EO1 & T1).
+  - apply NoNonePairs_bip; assumption.
+  - rewrite to_hif_nodes. apply recs_keys_NoDup. exact Kn.
+  - intros r Hr. rewrite to_hif_nodes in Hr. apply in_flat_map in Hr. destruct Hr as (kv & Hkv & Hr).
+    apply rec_of_spec in Hr. destruct Hr as [-> _]. cbn [fst]. intro N. destruct NN as [NNn _]. apply NNn.
+    unfold nkeys, keys. rewrite <- N. apply in_map. exact Hkv.
+  - rewrite to_hif_edges. apply recs_keys_NoDup. exact Ke.
+  - assert (Hinc : forall n e, In (n, e) (hf_inc (to_hif s)) <-> In n (mems s e)).
+    { intros n e. apply (In_bipartite_edgelist s n e Ke). }
+    assert (Hrec_n : forall n, In n (map fst (hf_nodes (to_hif s))) <->
+                               In n (nkeys s) /\ (mships s n = [] \/ geta n (h_nattr s) <> [])).
+    { intro n. rewrite to_hif_nodes, in_map_iff. split.
+      - intros (r & <- & Hr). apply in_flat_map in Hr. destruct Hr as ([k v] & Hkv & Hr). apply rec_of_spec in Hr.
+        destruct Hr as [-> Hc]. cbn [fst snd] in *. split; [unfold nkeys, keys; apply (in_map fst _ _ Hkv)|].
+        unfold mships, getl. rewrite (In_get _ _ _ Kn Hkv). exact Hc.
+      - intros [Hk Hc]. unfold nkeys, keys in Hk. apply in_map_iff in Hk. destruct Hk as ([k v] & <- & Hkv). cbn [fst] in *.
+        exists (k, geta k (h_nattr s)). split; [reflexivity|]. apply in_flat_map. exists (k, v). split; [exact Hkv|].
+        apply rec_of_spec. cbn [fst snd]. split; [reflexivity|].
+        unfold mships, getl in Hc. rewrite (In_get _ _ _ Kn Hkv) in Hc. exact Hc. }
+    assert (Hrec_e : forall e, In e (map fst (hf_edges (to_hif s))) <->
+                               In e (ekeys s) /\ (mems s e = [] \/ geta e (h_eattr s) <> [])).
+    { intro e. rewrite to_hif_edges, in_map_iff. split.
+      - intros (r & <- & Hr). apply in_flat_map in Hr. destruct Hr as ([k v] & Hkv & Hr). apply rec_of_spec in Hr.
+        destruct Hr as [-> Hc]. cbn [fst snd] in *. split; [unfold ekeys, keys; apply (in_map fst _ _ Hkv)|].
+        unfold mems, getl. rewrite (In_get _ _ _ Ke Hkv). exact Hc.
+      - intros [Hk Hc]. unfold ekeys, keys in Hk. apply in_map_iff in Hk. destruct Hk as ([k v] & <- & Hkv). cbn [fst] in *.
+        exists (k, geta k (h_eattr s)). split; [reflexivity|]. apply in_flat_map. exists (k, v). split; [exact Hkv|].
+        apply rec_of_spec. cbn [fst snd]. split; [reflexivity|].
+        unfold mems, getl in Hc. rewrite (In_get _ _ _ Ke Hkv) in Hc. exact Hc. }
+    split; [exact O1|]. split; [exact I1|].
+    split; [intros n e; rewrite M1; apply Hinc|].
+    split.
+    { intro x. rewrite N1, Hrec_n. split.
+      - intros [(e & He)|[Hk _]]; [|exact Hk]. apply Hinc in He. apply (members_are_nodes s e x I He).
+      - intro Hk. destruct (mships s x) as [|e es] eqn:Em; [right; split; [exact Hk|left; reflexivity]|].
+        left. exists e. apply Hinc. apply HW. rewrite Em. left; reflexivity. }
+    split.
+    { intro y. rewrite E1, Hrec_e. split.
+      - intros [(n & Hn)|[Hk _]]; [|exact Hk]. apply Hinc in Hn. unfold mems in Hn.
+        apply (getl_nonempty_key y (h_edge s) n Hn).
+      - intro Hk. destruct (mems s y) as [|n ns] eqn:Em; [right; split; [exact Hk|left; reflexivity]|].
+        left. exists n. apply Hinc. rewrite Em. left; reflexivity. }
+    split.
+    { intros n Hk. destruct (in_dec lbl_eq_dec n (map fst (hf_nodes (to_hif s)))) as [Hi|Hni].
+      - apply NA1. rewrite to_hif_nodes. rewrite to_hif_nodes in Hi. apply in_map_iff in Hi.
+        destruct Hi as (r & <- & Hr). pose proof Hr as Hr'. apply in_flat_map in Hr'. destruct Hr' as (kv & _ & Hr').
+        apply rec_of_spec in Hr'. destruct Hr' as [-> _]. cbn [fst]. exact Hr.
+      - rewrite (NO1 n Hni). assert (Ea : geta n (h_nattr s) = []).
+        { destruct (geta n (h_nattr s)) as [|p a] eqn:Eg; [reflexivity|]. exfalso. apply Hni. apply Hrec_n.
+          split; [exact Hk|right; rewrite Eg; discriminate]. }
+        rewrite Ea. reflexivity. }
+    split; [|exact T1].
+    intros e Hk. destruct (in_dec lbl_eq_dec e (map fst (hf_edges (to_hif s)))) as [Hi|Hni].
+    + apply EA1. rewrite to_hif_edges. rewrite to_hif_edges in Hi. apply in_map_iff in Hi.
+      destruct Hi as (r & <- & Hr). pose proof Hr as Hr'. apply in_flat_map in Hr'. destruct Hr' as (kv & _ & Hr').
+      apply rec_of_spec in Hr'. destruct Hr' as [-> _]. cbn [fst]. exact Hr.
+    + rewrite (EO1 e Hni). assert (Ea : geta e (h_eattr s) = []).
+      { destruct (geta e (h_eattr s)) as [|p a] eqn:Eg; [reflexivity|]. exfalso. apply Hni. apply Hrec_e.
+        split; [exact Hk|right; rewrite Eg; discriminate]. }
+      rewrite Ea. reflexivity.
+Qed.
